@@ -109,6 +109,36 @@ ExamStored(ex, env) ==
    rn |-> r.rn, hlms |-> r.hlms, brppm |-> r.brppm,
    lo8 |-> IF HasEnergy(ex) THEN ex.lo8 ELSE -8, hi8 |-> IF HasEnergy(ex) THEN ex.hi8 ELSE -8,
    cal4 |-> CalStored(ex.cal4)]
+\* --- implementation-shaped: which keys write_basic_interfile_image_header emits, and how
+\* InterfileHeader::post_processing rebuilds the exam information from them ("-" / negative = key absent)
+OrientName(o) == << "head_in", "feet_in", "other", "-" >>[o + 1]          \* unknown orientation: key not written
+RotName(r) == << "supine", "prone", "right", "left", "other", "-" >>[r + 1]
+OrientOf(n) == CASE n = "head_in" -> 0 [] n = "feet_in" -> 1 [] n = "other" -> 2 [] OTHER -> 3
+RotOf(n) == CASE n = "supine" -> 0 [] n = "prone" -> 1 [] n = "right" -> 2 [] n = "left" -> 3 [] n = "other" -> 4 [] OTHER -> 5
+ExamToHeader(ex) ==
+  LET win == ex.hi8 > 0 /\ ex.lo8 >= 0 IN                                  \* write_interfile_energy_windows
+  [mod |-> IF ex.mod = "Unknown" THEN "-" ELSE ex.mod,
+   typeOfData |-> IF ex.mod = "NM" THEN "Tomographic" ELSE "PET",
+   orient |-> OrientName(ex.orient), rot |-> RotName(ex.rot),
+   nframes |-> IF ex.frames = << >> THEN 1 ELSE Len(ex.frames),          \* "need to write this anyway"
+   \* durations and start times only for frames with a positive duration
+   frames |-> SelectSeq([f \in 1..Len(ex.frames) |-> << f, ex.frames[f][1], ex.frames[f][2] >>], LAMBDA x : x[3] > 0),
+   rn |-> IF ex.rn \in { "", "Unknown" } THEN "-" ELSE ex.rn,
+   hlms |-> IF ex.hlms > 0 THEN ex.hlms ELSE -1000, brppm |-> IF ex.brppm > 0 THEN ex.brppm ELSE -1000000,
+   lo8 |-> IF win THEN ex.lo8 ELSE -8, hi8 |-> IF win THEN ex.hi8 ELSE -8,
+   cal4 |-> IF ex.cal4 > 0 THEN ex.cal4 ELSE -4]
+ExamFromHeader(h, env) ==
+  LET mod == IF h.mod = "-" THEN "Unknown" ELSE h.mod
+      \* a named radionuclide is taken from the database or, failing that, from the header's own numbers: the same numbers
+      r == IF h.rn = "-" THEN (IF mod = "PT" THEN env.defPT ELSE IF mod = "NM" THEN env.defNM ELSE env.defOther)
+           ELSE [rn |-> h.rn, hlms |-> h.hlms, brppm |-> h.brppm]
+      fr == [f \in 1..h.nframes |->
+               LET hit == SelectSeq(h.frames, LAMBDA x : x[1] = f) IN IF hit = << >> THEN << 0, 0 >> ELSE << hit[1][2], hit[1][3] >>]
+      win == h.lo8 > 0 /\ h.hi8 > 0 IN                                      \* "upper > 0 && lower > 0"
+  [mod |-> mod, orient |-> OrientOf(h.orient), rot |-> RotOf(h.rot), frames |-> fr,
+   rn |-> r.rn, hlms |-> r.hlms, brppm |-> r.brppm,
+   lo8 |-> IF win THEN h.lo8 ELSE -8, hi8 |-> IF win THEN h.hi8 ELSE -8, cal4 |-> IF h.cal4 > 0 THEN h.cal4 ELSE -4]
+
 ExamProj(ex) == [mod |-> ex.mod, orient |-> ex.orient, rot |-> ex.rot, frames |-> ex.frames, rn |-> ex.rn, hlms |-> ex.hlms,
                  brppm |-> ex.brppm, lo8 |-> ex.lo8, hi8 |-> ex.hi8, cal4 |-> ex.cal4]
 
@@ -127,17 +157,17 @@ WriteFile(img, ty, user, env) ==
                  IF ty.int THEN (IF sc[d][1] = 0 THEN 0 ELSE Quantise(img.vals[d][i], sc[d], ty.signed)) ELSE img.vals[d][i]]],
    off |-> [d \in 1..img.nd |-> (d - 1) * nv * ty.bytes],
    announced |-> img.nd * nv * ty.bytes, dlen |-> img.nd * nv * ty.bytes,
-   exam |-> ExamStored(img.exam, env)]
+   hexam |-> ExamToHeader(img.exam)]
 Truncate(f, len) == [f EXCEPT !.dlen = len]
 ReadError == [ok |-> FALSE]
 \* "A data file shorter than its header announces is reported as an error rather than returned as an image."
-ReadFile(f) ==
+ReadFile(f, env) ==
   IF ~f.present \/ f.dlen < f.announced THEN ReadError
   ELSE [ok |-> TRUE, geo |-> GeomFromHeader(f.msize, f.vox, f.fpo), nd |-> f.nd,
         \* value read = stored * scale, kept as the pair << stored * p, q >>
         num |-> [d \in 1..f.nd |-> [i \in 1..Len(f.stored[d]) |-> f.stored[d][i] * f.scale[d][1]]],
         den |-> [d \in 1..f.nd |-> f.scale[d][2]],
-        exam |-> f.exam]
+        exam |-> ExamFromHeader(f.hexam, env)]
 
 \* the property, on the abstract level
 ModelRoundTripOK(img, ty, f, r, env) ==
